@@ -10,7 +10,8 @@ type) are written with write_encrypted_*, read with read_encrypted and expect_*_
 positions the model predicts; cipher and plain streams may differ in header positions only."""
 import sys, os, re
 sys.path.insert(0, os.path.join(os.path.dirname(__file__), "..", "lib"))
-from vlib import *
+sys.path.insert(0, os.path.join(os.path.dirname(__file__), "..", "tools"))
+from semcorr import *
 
 PID = "C05"
 
@@ -69,15 +70,84 @@ def run(tier, seed):
             kind = "header-only" if "hdronly=0" in h else "sequence"
             rep.violation(f"C05/{exp}-{d}/{api}-{kind}", f"{exp} {d} {api}: an encrypted sequence of {len(ms)} messages is not read back as written: '{h[:160]}' (expected '{want[:120]}')",
                           {"input": rq, "implementation": h, "expected": want, "replay_cmd": f"echo '{rq}' | {har}"})
+    # (c) sequences of ANY messages, including the compressed ones whose encrypted writers are overridden (print_encrypted_body):
+    # canonical plain frames (Lean generator; python reference encoder for built-in types and compressed members) are read by the
+    # plain reader, written encrypted and plain, and the cipher stream is read back by the decrypting reader
+    import pyenc, zlib
+    conts = build_corpus()
+    drv = Driver()
+    pools = {}
+    world = [c for c in conts if c["lib"] != "login"]
+    plain_c = [c for c in world if "tokens" in c and "prim" not in c["tokens"]]
+    pick = plain_c if tier != "quick" else [c for i, c in enumerate(plain_c) if i % 4 == seed % 4]
+    gq = [f"gen {c['key']} {rng.below(1 << 40)} 3" for c in pick]
+    for c, g in zip(pick, drv.ask_many(gq)):
+        if g.startswith("ok"):
+            body = bytes.fromhex(g.split()[1]) if g.split()[1] != "-" else b""
+            for dr in directions(c):
+                pools.setdefault((libname(c), dr), []).append((c["key"], frame(libname(c), dr, c["opcode"], body), False))
+    drv.close()
+    n_z = 0
+    for c in world:
+        toks = c.get("ztokens") or c.get("zmsg_tokens") or (c.get("tokens") if "tokens" in c and "prim" in c["tokens"] else None)
+        if toks is None:
+            continue
+        for s_ in range(4 if tier == "quick" else 24):
+            try:
+                body = pyenc.encode(toks, rng, (1, 2, 3, 6)[s_ % 4], None)
+            except (pyenc.Unsupported, OverflowError, ValueError):
+                break
+            if "zmsg_tokens" in c:
+                body = len(body).to_bytes(4, "little") + zlib.compress(body)
+            for dr in directions(c):
+                pools.setdefault((libname(c), dr), []).append((c["key"], frame(libname(c), dr, c["opcode"], body), "tokens" not in c))
+                n_z += "tokens" not in c
+    freqs, fmeta = [], []
+    for (exp, d), pool_ in sorted(pools.items()):
+        zs = [x for x in pool_ if x[2]]
+        for k in range(len(zs) * 2 + (30 if tier == "quick" else 300)):
+            n = 1 + rng.below(10)
+            fs = [rng.choice(pool_) for _ in range(n)]
+            if zs and k < len(zs) * 2:
+                fs[(k // 2) % n if k % 2 else 0] = zs[k // 2]          # every compressed frame: once first, once inside a sequence
+                if k % 2:
+                    fs.append(rng.choice(pool_))
+            if sum(len(f[1]) for f in fs) > 200000:
+                continue
+            freqs.append(f"eseqf {exp} {d} {rng.bytes(40).hex()} {','.join(f[1].hex() for f in fs)}")
+            fmeta.append((exp, d, fs))
+    fo = run_parallel(har, freqs, jobs=12)
+    n_fmsg = n_unread = n_fz = 0
+    for (exp, d, fs), rq, h in zip(fmeta, freqs, fo):
+        if h.startswith("unreadable") or h.startswith("plain-write-"):
+            n_unread += 1          # the plain reader rejects a generated frame, or the plain writer refuses the value: C01's subject, not this property's
+            continue
+        m = re.match(r"ok hdronly=(\d) plain=([\d,]+)((?: \d+!?@\d+)*) end=(\d+)$", h)
+        good = False
+        if m and m.group(1) == "1" and "!" not in m.group(3):
+            lens = [int(x) for x in m.group(2).split(",")]
+            poss = [int(x.split("@")[1]) for x in m.group(3).split()]
+            cum = [sum(lens[:i + 1]) for i in range(len(lens))]
+            good = len(lens) == len(fs) and poss == cum and int(m.group(4)) == cum[-1]
+        if good:
+            n_fmsg += len(fs)
+            n_fz += sum(1 for f in fs if f[2])
+        else:
+            names = [f[0].split(":")[-1] for f in fs]
+            culprit = next((f[0] for f in fs if f[2]), fs[0][0])
+            rep.violation(f"C05/{exp}-{d}/any-message/{culprit.split(':')[-1] if any(f[2] for f in fs) else 'sequence'}",
+                          f"{exp} {d}: the encrypted form of the sequence {names[:6]} is not read back as the plain stream is: '{h[:200]}'",
+                          {"input": rq[:60000], "messages": names, "implementation": h[:2000], "replay_cmd": f"echo '{rq[:60000]}' | {har}"})
     rep.coverage = {
+        "any_message_sequences": len(freqs), "any_message_messages_read_back": n_fmsg, "compressed_messages_read_back": n_fz, "compressed_frames_generated": n_z, "sequences_with_frame_rejected_by_plain_reader": n_unread,
         "obligations": po["obligations"], "discharged": po["discharged"],
         "checker_cmd": "cd /verif/lean && lake build WowVerif.Thm.C05 && lake env lean WowVerif/Thm/C05.lean",
         "trusted_base": TRUSTED_BASE_COMMON + ["the wow_srp header ciphers satisfy the byte-wise coupling law (assumption of the theorems, validated by sampling in this run)",
                                                "the framing model of C02 (hand transcription, tied by C02's correspondence)"],
         "theorems": po["theorems"],
-        "evaluations": len(reqs) + len(law), "distinct_nontrivial": len(set(reqs)), "sequences": len(reqs), "messages_in_sequences": nmsg, "cipher_law_samples": len(law),
+        "evaluations": len(reqs) + len(law) + len(freqs), "distinct_nontrivial": len(set(reqs)), "sequences": len(reqs), "messages_in_sequences": nmsg, "cipher_law_samples": len(law),
         "rule": "3 expansions x 2 directions x 2 reader entry points x (6 boundary sequences + random sequences of 1-30 messages with random 40-byte session keys); plus cipher-law samples",
         "samples": [{"request": reqs[i][:200], "implementation": ho[i][:160]} for i in (0, len(reqs) // 2)],
     }
-    rep.assumptions = ["compressed messages override the encrypted writers (print_encrypted_body); they are exercised by C01/C03 only in unencrypted form"]
+    rep.assumptions = ["the any-message stream compares the library's encrypted path with its own plain path (the relation enc_stream states); stream positions of compressed messages come from the library's plain writer, zlib is outside the model"]
     return rep.finish()
